@@ -406,8 +406,8 @@ def strat_views(tier):
       try:      # the path may have stopped existing (an ancestor was replaced by a leaf in between): then no repeat
         model = tr.ref_set(model, tr.npath(p0), tr.decode(vj))
         upd.append([p0, vj])
-      except (TypeError, KeyError, IndexError, AssertionError):
-        pass
+      except (TypeError, KeyError, IndexError, AssertionError, ValueError):
+        pass      # (ValueError: the path is an element of a numeric array and the drawn value is not a number)
     if upd and node_paths and draw(st.integers(0, 2)) == 0:
       # a later pair sets a path back to the object it held originally (an earlier pair may have changed it, or replaced an ancestor)
       related = [q for q in node_paths if any(tr.related(tuple(map(tuple, q)), tr.npath(u[0])) for u in upd)]
